@@ -152,6 +152,13 @@ def step (st : Option Eng) (w : List String) : Option Eng × String :=
           let (s', fr) := takeSent (startAddressClaim n.st d)
           out e { n with st := s' } fr
         | none => (st, "bad-op")
+      | ["aclaim", src, nm] =>
+        match nat? src, hexNat? nm with
+        | some src, some nm =>
+          let r := pollClaim n (src % 256) nm
+          let (s', fr) := takeSent r.1.st
+          out e { r.1 with st := s' } fr
+        | _, _ => (st, "bad-op")
       | ["rq", r, dst, p] =>
         match nat? r, nat? dst, nat? p with
         | some r, some dst, some p =>
